@@ -217,6 +217,21 @@ impl Session {
         let w: Vec<&str> = req.split(' ').collect();
         let n = |s: &Session, i: usize| s.nodes[w[i].parse::<usize>().unwrap()];
         let mut returned: Option<Node> = None;
+        // a move that asks for the position the node already occupies changes nothing (C05; seed C05j)
+        let noop_before: Option<String> = if matches!(w[0], "append" | "prepend" | "insert_after" | "insert_before") {
+            let (a, b) = (n(self, 1), n(self, 2));
+            let live = !self.xot.is_removed(a) && !self.xot.is_removed(b);
+            let already = live
+                && match w[0] {
+                    "append" => self.xot.last_child(a) == Some(b),
+                    "prepend" => self.xot.first_child(a) == Some(b),
+                    "insert_after" => self.xot.next_sibling(a) == Some(b),
+                    _ => self.xot.previous_sibling(a) == Some(b),
+                };
+            if already { Some(self.dump()) } else { None }
+        } else {
+            None
+        };
         let resp: String = match w[0] {
             "reset" => "ok".into(),
             "cons" => {
@@ -363,6 +378,15 @@ impl Session {
                 None => panic!("unknown request {}", req),
             },
         };
+        if let Some(before) = noop_before {
+            sink.stat("oracle.noop-move");
+            if resp == "ok" && !self.detect_cycle() {
+                let after = self.dump();
+                if after != before {
+                    sink.fail("C05", &format!("C05:{}:noop-move-changes-the-forest", w[0]), &format!("{}: the node already stands at the requested position, the call answers ok, but the forest `{}` became `{}`", req, before, after), &self.history);
+                }
+            }
+        }
         // nothing below may walk a store whose parent links form a cycle
         if !matches!(w[0], "dump" | "inv" | "removed" | "map_read" | "reset" | "cons" | "new") && self.detect_cycle() {
             self.cyclic = true;
